@@ -18,7 +18,7 @@ def vib_aggregate(cx, nmol, nmodes, nmax):
         mols = []
         for i in range(nmol):
             m = qr.Molecule(name="M%d" % i, elenergies=[0.0, 1.0])
-            for k in range(nmodes):
+            for k in range(nmodes[i] if isinstance(nmodes, (list, tuple)) else nmodes):
                 mod = qr.Mode(0.01 * (k + 1))
                 m.add_Mode(mod)
                 mod.set_nmax(0, nmax[0])
@@ -65,26 +65,38 @@ def vib_aggregate(cx, nmol, nmodes, nmax):
 
 def fc_of(agg, table, cx, shft):
     if cx.sym:
-        return table[round(float(shft), 12)]
-    return agg.ops.shift_operator(shft)[:20, :20]
+        return agg.ops.shift_operator(shft)     # the stub: creates the matrix if the code never asked for it
+    key = round(float(shft), 12)     # replay: the real 100-level displacement operator, computed once per shift
+    if key not in table:
+        table[key] = agg.ops.shift_operator(shft)[:20, :20]
+    return table[key]
 
 
 @harness("C10", "vibronic_build",
-         quick=[dict(nmol=1, nmodes=1, nmax=[2, 2]), dict(nmol=2, nmodes=1, nmax=[2, 2])],
+         quick=[dict(nmol=1, nmodes=1, nmax=[2, 2]), dict(nmol=2, nmodes=1, nmax=[2, 2]),
+                dict(nmol=2, nmodes=[0, 1], nmax=[3, 2]), dict(nmol=2, nmodes=[2, 1], nmax=[2, 2]),
+                dict(nmol=3, nmodes=[1, 0, 1], nmax=[2, 2], mult=2)],
          thorough=[dict(nmol=1, nmodes=1, nmax=[3, 2]), dict(nmol=1, nmodes=2, nmax=[2, 2]),
                    dict(nmol=2, nmodes=1, nmax=[2, 2]), dict(nmol=2, nmodes=1, nmax=[3, 2]),
-                   dict(nmol=2, nmodes=2, nmax=[2, 2])],
+                   dict(nmol=2, nmodes=2, nmax=[2, 2]), dict(nmol=2, nmodes=[0, 1], nmax=[3, 2]),
+                   dict(nmol=2, nmodes=[2, 1], nmax=[2, 2]), dict(nmol=3, nmodes=[1, 0, 1], nmax=[2, 2], mult=2),
+                   dict(nmol=3, nmodes=[1, 1, 1], nmax=[2, 2], mult=2), dict(nmol=2, nmodes=[1, 1], nmax=[2, 3], mult=2),
+                   dict(nmol=3, nmodes=[0, 2, 1], nmax=[2, 2], mult=1)],
          functions=[F_AB + ":AggregateBase.build", F_AB + ":AggregateBase.fc_factor", F_AB + ":AggregateBase.coupling",
                     F_AB + ":AggregateBase.transition_dipole", F_AS + ":ElectronicState.vsignatures",
                     F_AS + ":VibronicState", F_AB + ":AggregateBase.allstates"],
-         bound="1-2 molecules, 1-2 modes each, 2-3 levels per mode and electronic state (full vibrational state "
-               "space, single-exciton band); electronic energies, couplings, dipoles symbolic; Franck-Condon overlaps "
-               "an uninterpreted matrix per shift difference",
+         bound="1-3 molecules with 0-2 modes each (different numbers of modes per molecule included), 2-3 levels per "
+               "mode and electronic state (full vibrational state space), single-exciton band and (3 molecules) the "
+               "two-exciton band; electronic energies, couplings, dipoles symbolic; Franck-Condon overlaps "
+               "an uninterpreted matrix per shift difference; shifts, frequencies and level counts of the reference "
+               "are read from the molecules' modes, not from the aggregate's states",
          out="the values of the overlaps (Poisson law, orthogonality: exp/eig of a 100-level matrix); truncated "
-             "state-generation approximations; two-exciton vibronic states")
-def vibronic_build(cx, nmol, nmodes, nmax):
+             "state-generation approximations; molecules with more than two electronic levels")
+def vibronic_build(cx, nmol, nmodes, nmax, mult=1):
     agg, mols, g, e, d, J, table = vib_aggregate(cx, nmol, nmodes, nmax)
-    agg.build(mult=1)
+    if not isinstance(nmodes, (list, tuple)):
+        nmodes = [nmodes] * nmol
+    agg.build(mult=mult)
     states = [s for (a, s) in agg.all_states]
     n = len(states)
     cx.prove("dim", agg.Ntot == n and agg.HamOp.dim == n)
@@ -95,21 +107,29 @@ def vibronic_build(cx, nmol, nmodes, nmax):
         got = sorted(v for (el, v) in sigs if el == els)
         ranges = []
         for mi in range(nmol):
-            for k in range(nmodes):
+            for k in range(nmodes[mi]):
                 ranges.append(range(nmax[els[mi]]))
         want = sorted(itertools.product(*ranges))
         cx.prove("vibronic_states_of%s" % (els,), got == want)
-    cx.prove("electronic_states", sorted({s[0] for s in sigs}) ==
-             sorted([tuple([0] * nmol)] + [tuple(1 if j == i else 0 for j in range(nmol)) for i in range(nmol)]))
-    # --- matrix elements
-    om = [[mols[mi].get_Mode(k).get_energy(0) for k in range(nmodes)] for mi in range(nmol)]
+    want_els = [tuple([0] * nmol)] + [tuple(1 if j == i else 0 for j in range(nmol)) for i in range(nmol)]
+    if mult >= 2:
+        want_els += [tuple(1 if j in (i, k) else 0 for j in range(nmol)) for i in range(nmol)
+                     for k in range(i + 1, nmol)]
+    cx.prove("electronic_states", sorted({s[0] for s in sigs}) == sorted(want_els))
+    # --- matrix elements: mode (mi, k) in electronic level l of molecule mi, read from the molecule itself
+    with cx.concrete():
+        sub = {(mi, k, l): mols[mi].get_Mode(k).get_SubMode(l) for mi in range(nmol) for k in range(nmodes[mi])
+               for l in (0, 1)}
+    slots = [(mi, k) for mi in range(nmol) for k in range(nmodes[mi])]
 
     def fcprod(sa, sb):
         """product over all modes of FC(shift_a - shift_b)[n, m]"""
         res = 1
-        ma, mb = sa.elstate.vibmodes, sb.elstate.vibmodes
-        for kk in range(len(ma)):
-            shft = ma[kk].shift - mb[kk].shift
+        ea_, eb_ = sa.elstate.elsignature, sb.elstate.elsignature
+        if len(sa.vsig) != len(slots) or len(sb.vsig) != len(slots):
+            return None
+        for kk, (mi, k) in enumerate(slots):
+            shft = sub[(mi, k, ea_[mi])].shift - sub[(mi, k, eb_[mi])].shift
             res = res * fc_of(agg, table, cx, shft)[sa.vsig[kk], sb.vsig[kk]]
         return res
     H, D, FC = agg.HamOp._data, agg.DD, agg.FCf
@@ -119,19 +139,21 @@ def vibronic_build(cx, nmol, nmodes, nmax):
         en = 0
         for mi in range(nmol):
             en = en + (e[mi] if ea[mi] == 1 else g[mi])
-        pos = 0
-        for mi in range(nmol):
-            for k in range(nmodes):
-                en = en + sa.vsig[pos] * sa.elstate.vibmodes[pos].omega
-                pos += 1
+        cx.prove("one_quantum_number_per_mode[%d]" % a, len(sa.vsig) == len(slots))
+        if len(sa.vsig) != len(slots):
+            continue
+        for pos, (mi, k) in enumerate(slots):
+            en = en + sa.vsig[pos] * sub[(mi, k, ea[mi])].omega
         cx.prove_eq("H_diag[%d]" % a, H[a, a], en, tol=1e-9)
         for b, sb in enumerate(states):
             eb = sb.elstate.elsignature
             f = fcprod(sa, sb)
+            if f is None:
+                continue
             cx.prove_eq("FC[%d,%d]" % (a, b), FC[a, b], f, tol=1e-9)
             diff = [p for p in range(nmol) if ea[p] != eb[p]]
             if a != b:
-                if sum(ea) == 1 and sum(eb) == 1 and len(diff) == 2:
+                if sum(ea) == sum(eb) and sum(ea) >= 1 and len(diff) == 2:
                     cx.prove_eq("H[%d,%d]" % (a, b), H[a, b], J[diff[0], diff[1]] * f, tol=1e-9)
                 else:
                     cx.prove_eq("H[%d,%d]" % (a, b), H[a, b], 0, tol=1e-12)
